@@ -14,7 +14,7 @@ CLAIMED = {
     'C18': ('Partial: the API half only. Every query of the C07, C09, C10, C13, C14 and C15-lin checks is re-read for assert() failures (live in the encoding), exceptions escaping noexcept (std::terminate), pure-virtual calls, traps, signed overflow and division by zero. The text-input half (lexer / parser on arbitrary bytes, hangs) could not be encoded (measured, DESIGN.md section 3) and is NOT covered.', '5 C18'),
     'C07': ('The real sat_core (clause database, two-watched-literal propagation, conflict analysis, backjumping, next, check, simplify_db) is executed on concrete clause sets and call histories (curated conflict scenarios plus a seeded sample; systematic families in the thorough tier); after every call cbmc decides over ALL total assignments that every reported value is entailed by the added clauses and standing decisions, every stored or learnt clause is implied, an inconsistency answer means unsatisfiability, and propagation reached its fixpoint. The histories are enumerated, not symbolic (symbolic shapes make cbmc lose constant heap pointers); the quantification over models is symbolic.', '5 C07'),
     'C10': ('idl_theory and rdl_theory are driven through sat_core on concrete constraint sets and assume / pop / root-assert / check histories; after every call cbmc decides for ALL time-point assignments that the reported matrix equals a Floyd-Warshall reference, bounds contain every solution, everything decided is propagated, every explanation / learnt clause is valid under the meaning of its literals, and inconsistency means unsatisfiability. Scenarios are enumerated (curated + seeded sample); the assignment x is symbolic.', '5 C10'),
-    'C12': ('The five relation constructors and the bounds / distance / equates queries of idl_theory and rdl_theory are called on concrete expression shapes (coefficients 0,+-1,+-2; integer and half-integer constants; both variable orders; with and without root constraints); cbmc decides for ALL time-point values and ALL SAT assignments compatible with the meaning of the distance literals that the returned literal has the value of the relation, and that query results contain / equal the exact ranges. Three recorded findings delimit input classes that are excluded and re-demonstrated on every run.', '5 C12'),
+    'C12': ('The five relation constructors and the bounds / distance / equates queries of idl_theory and rdl_theory are called on concrete expression shapes (coefficients 0,+-1,+-2; integer and half-integer constants; both variable orders; with and without root constraints); cbmc decides for ALL time-point values and ALL SAT assignments compatible with the meaning of the distance literals that the returned literal has the value of the relation, and that query results contain / equal the exact ranges. Three defects found this way were repaired (fix: commits); their reproducers are ordinary queries of both tiers.', '5 C12'),
     'C14': ('ov_theory is exercised for every pair of non-empty domains over a 3-value pool: cbmc decides over ALL SAT assignments that each variable has exactly one allowed value in every model, that the equality literal is true exactly for equal values, that every pair of allowed values extends to a model, and that reported domains follow the value literals through assume / pop.', '5 C14'),
     'C15': ('All operators of rational, inf_rational and lin are executed on fully symbolic operands (|num|, den <= B; integer coefficients for lin) and compared by the solver with exact cross-multiplication, canonicity (reduced, positive denominator) and the total order incl. infinities; 64-bit machine words, signed-overflow and division-by-zero checks on. Shapes that change the structure of a lin map (which variables cancel, zero scalar) are enumerated by the driver. Bounded by B, not a proof for all magnitudes.', '5 C15'),
     'C13': ('Every reified construct (eq/conj/disj/at-most-one/exactly-one) of the real sat_core is built for every argument shape inside the bound (operator, argument variables incl. '
